@@ -29,7 +29,7 @@ func init() {
 			if tier == "quick" {
 				return 90
 			}
-			return 400
+			return 1200
 		},
 		Batch:            10,
 		Workers:          8,
@@ -48,7 +48,7 @@ func init() {
 			if tier == "quick" {
 				return 90
 			}
-			return 400
+			return 1200
 		},
 		Batch:            10,
 		Workers:          8,
